@@ -27,7 +27,7 @@
  *   xmit2 <szx> <bodyLen> <seed> <mtu2> <num.szx,…>        coap_add_data_large_response + coap_handle_request_send_block sequence (server, Block2)
  *   xmit1 <cszx|-> <bodyLen> <seed> <mtu> <code.num.szx|code,…>   coap_add_data_large_request + coap_send + coap_handle_response_send_block sequence (client, Block1)
  *
- *   q408 / qenc / qset                         RFC 9177 (Q-Block) ops of C02, described at do_q408 / do_qenc / do_qset
+ *   q408 / qenc / qset / qreq / qsend          RFC 9177 (Q-Block) ops of C02, described at do_q408 / do_qenc / do_qset / do_qreq / do_qsend
  *
  * Layer B (H-sim, sim_core.h): a real client and a real server context, virtual clock, scripted network:
  *
@@ -1133,6 +1133,139 @@ out:
   sim_log_enabled = 1;
 }
 
+/* qreq <maxPayloads> <useM> <szx> <totalLen> <n,n,…> : ONE call of the real coap_request_missing_q_block2() on the rec_blocks built
+ * by update_received_blocks() from the numbers, with that MAX_PAYLOADS, block size and total_len, with / without
+ * COAP_BLOCK_USE_M_Q_BLOCK: the Q-Block2 options of the request sent (`num.m`, `!` if one carries another SZX) and the new
+ * processing_payload_set (`-`: unchanged) */
+static char qr_buf[8192]; static size_t qr_len; static unsigned qr_szx;
+static void qr_on_tx(const sim_dgram_t *d) {
+  coap_pdu_t *p = coap_pdu_init(0, 0, 0, 8192);
+  if (p && coap_pdu_parse(COAP_PROTO_UDP, d->data, d->len, p)) {
+    coap_opt_iterator_t oi;
+    coap_opt_t *o;
+    coap_option_iterator_init(p, &oi, COAP_OPT_ALL);
+    while ((o = coap_option_next(&oi)))
+      if (oi.number == COAP_OPTION_Q_BLOCK2 && qr_len + 24 < sizeof(qr_buf)) {
+        unsigned v = coap_decode_var_bytes(coap_opt_value(o), coap_opt_length(o));
+        qr_len += (size_t)snprintf(qr_buf + qr_len, sizeof(qr_buf) - qr_len, "%s%u.%u%s", qr_len ? "," : "", v >> 4, (v >> 3) & 1,
+                                   (v & 7) == qr_szx ? "" : "!");
+      }
+  } else if (qr_len + 16 < sizeof(qr_buf))
+    qr_len += (size_t)snprintf(qr_buf + qr_len, sizeof(qr_buf) - qr_len, "%sunparsable", qr_len ? "," : "");
+  if (p) coap_delete_pdu(p);
+}
+static void do_qreq(unsigned maxPay, int useM, unsigned szx, size_t totalLen, char *seq) {
+  static const uint8_t tok[2] = {0xb1, 0xb2};
+  if (maxPay < 1 || maxPay > 65535 || szx > 6) { printf("bad-op"); return; }
+  sim_reset();
+  sim_log_enabled = 0;
+  coap_context_t *ctx = sim_new_context();
+  coap_session_t *s = sim_new_client(ctx, 5683);
+  coap_pdu_t *p;
+  coap_lg_crcv_t *lg;
+  char *tk, *save = NULL;
+  coap_context_set_block_mode(ctx, COAP_BLOCK_USE_LIBCOAP | COAP_BLOCK_SINGLE_BODY);
+  s->block_mode = ctx->block_mode | COAP_BLOCK_HAS_Q_BLOCK | (useM ? COAP_BLOCK_USE_M_Q_BLOCK : 0);
+  coap_session_set_mtu(s, 4000);
+  p = coap_new_pdu(COAP_MESSAGE_NON, COAP_REQUEST_CODE_GET, s);
+  coap_add_token(p, 2, tok);
+  coap_add_option(p, COAP_OPTION_URI_PATH, 1, (const uint8_t *)"L");
+  coap_lock_lock(ctx, return);
+  lg = coap_block_new_lg_crcv(s, p, NULL);
+  coap_lock_unlock(ctx);
+  if (!lg) { printf("nolg"); coap_delete_pdu(p); goto out; }
+  memset(&lg->rec_blocks, 0, sizeof(lg->rec_blocks));
+  for (tk = strcmp(seq, "-") ? strtok_r(seq, ",", &save) : NULL; tk; tk = strtok_r(NULL, ",", &save)) {
+    unsigned long v = strtoul(tk, 0, 10);
+    if (v >= (1UL << 20)) { printf("bad-op"); goto del; }
+    update_received_blocks(&lg->rec_blocks, (uint32_t)v);
+  }
+  printf("ranges="); dump_ranges(&lg->rec_blocks);
+  lg->rec_blocks.processing_payload_set = 0x7ffffff;
+  coap_session_set_max_payloads(s, (uint16_t)maxPay);
+  lg->block_option = COAP_OPTION_Q_BLOCK2;
+  lg->szx = (uint8_t)szx; lg->total_len = totalLen; lg->last_type = COAP_MESSAGE_NON;
+  qr_len = 0; qr_buf[0] = 0; qr_szx = szx;
+  sim_tx_hook = qr_on_tx;
+  coap_lock_lock(ctx, goto del);
+  coap_request_missing_q_block2(s, lg);
+  coap_lock_unlock(ctx);
+  sim_tx_hook = NULL;
+  printf(" req=%s", qr_len ? qr_buf : "-");
+  if (lg->rec_blocks.processing_payload_set == 0x7ffffff) printf(" pps=-"); else printf(" pps=%u", (unsigned)lg->rec_blocks.processing_payload_set);
+del:
+  coap_lock_lock(ctx, goto out);
+  coap_block_delete_lg_crcv(s, lg);
+  coap_lock_unlock(ctx);
+  coap_delete_pdu(p);
+out:
+  sim_tx_hook = NULL;
+  sim_free_all(0);
+  sim_log_enabled = 1;
+}
+
+/* qsend <maxPayloads> <szx> <bodyLen> <num> <m> : a client session with Q-Block negotiated PUTs a body (NON): `first=` the first
+ * burst (coap_send → coap_send_q_blocks with COAP_SEND_INC_PDU: block 0 and what follows it), then the real
+ * coap_send_q_blocks(session, lg_xmit, {num, m, szx}, &lg_xmit->pdu, COAP_SEND_SKIP_PDU) as the payload-set timer calls it: `next=` the
+ * blocks it transmits (`num.m:len`, `!` if the payload is not the body's bytes at num·chunk or SZX differs) */
+static char qn_buf[8192]; static size_t qn_len; static const uint8_t *qn_body; static size_t qn_bodylen; static unsigned qn_szx;
+static void qn_on_tx(const sim_dgram_t *d) {
+  coap_pdu_t *p = coap_pdu_init(0, 0, 0, 4096);
+  if (p && coap_pdu_parse(COAP_PROTO_UDP, d->data, d->len, p) && qn_len + 40 < sizeof(qn_buf)) {
+    coap_block_b_t b;
+    size_t l = 0; const uint8_t *dd = NULL;
+    coap_get_data(p, &l, &dd);
+    if (coap_get_block_b(NULL, p, COAP_OPTION_Q_BLOCK1, &b)) {
+      size_t off = (size_t)b.num << (qn_szx + 4);
+      int ok = b.szx == qn_szx && off < qn_bodylen && off + l <= qn_bodylen && !memcmp(dd, qn_body + off, l);
+      qn_len += (size_t)snprintf(qn_buf + qn_len, sizeof(qn_buf) - qn_len, "%s%u.%u:%zu%s", qn_len ? "+" : "", b.num, b.m, l, ok ? "" : "!");
+    } else
+      qn_len += (size_t)snprintf(qn_buf + qn_len, sizeof(qn_buf) - qn_len, "%snoblock", qn_len ? "+" : "");
+  } else if (qn_len + 16 < sizeof(qn_buf))
+    qn_len += (size_t)snprintf(qn_buf + qn_len, sizeof(qn_buf) - qn_len, "%sunparsable", qn_len ? "+" : "");
+  if (p) coap_delete_pdu(p);
+}
+static void do_qsend(unsigned maxPay, unsigned szx, size_t bodyLen, unsigned num, int m) {
+  static const uint8_t tok[4] = {0xa2, 0xa2, 0xa2, 0xa2};
+  if (szx > 6 || bodyLen <= ((size_t)16 << szx) || bodyLen > 70000 || maxPay < 1 || maxPay > 255 || num >= (1u << 20) || m < 0 || m > 1) { printf("bad-op"); return; }
+  sim_reset();
+  sim_log_enabled = 0;
+  uint8_t *body = mk_body(bodyLen, 3), buf[4];
+  coap_context_t *ctx = sim_new_context();
+  coap_session_t *s = sim_new_client(ctx, 5683);
+  coap_pdu_t *p;
+  coap_context_set_block_mode(ctx, COAP_BLOCK_USE_LIBCOAP | COAP_BLOCK_SINGLE_BODY);
+  s->block_mode = ctx->block_mode | COAP_BLOCK_HAS_Q_BLOCK;
+  coap_session_set_max_payloads(s, (uint16_t)maxPay);
+  qn_len = 0; qn_buf[0] = 0; qn_body = body; qn_bodylen = bodyLen; qn_szx = szx;
+  sim_tx_hook = qn_on_tx;
+  rel_count = 0;
+  p = coap_new_pdu(COAP_MESSAGE_NON, COAP_REQUEST_CODE_PUT, s);
+  coap_add_token(p, 4, tok);
+  coap_add_option(p, COAP_OPTION_URI_PATH, 1, (const uint8_t *)"b");
+  coap_add_option(p, COAP_OPTION_Q_BLOCK1, coap_encode_var_safe(buf, sizeof(buf), szx), buf);
+  if (!coap_add_data_large_request(s, p, bodyLen, body, rel_cb, NULL)) { printf("fail"); coap_delete_pdu(p); goto out; }
+  if (coap_send(s, p) == COAP_INVALID_MID) { printf("send-fail"); goto out; }
+  printf("first=%s", qn_len ? qn_buf : "-");
+  if (!s->lg_xmit || s->lg_xmit->blk_size != szx) { printf(" nolg"); goto out; }
+  {
+    coap_block_b_t block;
+    memset(&block, 0, sizeof(block));
+    block.num = num; block.m = (unsigned)m; block.szx = block.aszx = szx;
+    qn_len = 0; qn_buf[0] = 0;
+    coap_lock_lock(ctx, goto out);
+    coap_send_q_blocks(s, s->lg_xmit, block, &s->lg_xmit->pdu, COAP_SEND_SKIP_PDU);
+    coap_lock_unlock(ctx);
+    printf(" next=%s", qn_len ? qn_buf : "-");
+  }
+out:
+  sim_tx_hook = NULL;
+  sim_free_all(0);
+  sim_log_enabled = 1;
+  printf(" rel=%d", rel_count);
+  free(body);
+}
+
 #include "block_sim.h"
 
 static void step1(char *line) {
@@ -1192,6 +1325,10 @@ static void step1(char *line) {
     do_qenc(w[1]);
   } else if (!strcmp(w[0], "qset") && n == 4) {
     do_qset((unsigned)strtoul(w[1], 0, 10), (unsigned)strtoul(w[2], 0, 10), w[3]);
+  } else if (!strcmp(w[0], "qreq") && n == 6) {
+    do_qreq((unsigned)strtoul(w[1], 0, 10), atoi(w[2]), (unsigned)strtoul(w[3], 0, 10), strtoull(w[4], 0, 10), w[5]);
+  } else if (!strcmp(w[0], "qsend") && n == 6) {
+    do_qsend((unsigned)strtoul(w[1], 0, 10), (unsigned)strtoul(w[2], 0, 10), strtoull(w[3], 0, 10), (unsigned)strtoul(w[4], 0, 10), atoi(w[5]));
   } else if (!strcmp(w[0], "xfer")) {
     do_xfer(n, w);
   } else
